@@ -9,6 +9,7 @@ package c18
 
 import (
 	"context"
+	"errors"
 	"fmt"
 	"strings"
 	"sync/atomic"
@@ -36,6 +37,9 @@ func initEnv(c *core.Ctx) {
 		if err := h.DB.AutoMigrate(txm.AllModels...); err != nil {
 			panic(err)
 		}
+		if err := h.DB.AutoMigrate(&doc{}); err != nil {
+			panic(err)
+		}
 		handles[i] = h
 	}
 	txm.H.Enabled = true
@@ -47,11 +51,25 @@ func initEnv(c *core.Ctx) {
 type op struct {
 	desc string
 	run  func(db *gorm.DB) error
+	// multi: the operation starts more than one chain from the handle it is given, so the handle has to be a
+	// reusable one (a session); a chain value (result of Set/Where/Scopes...) is good for one chain only
+	multi bool
 }
 
 var readKinds = []string{"PreloadNested", "PreloadAll", "JoinsCompany", "FindInBatches", "Rows", "Scan", "Pluck", "Count", "First", "Last", "FirstOrCreate", "FirstOrInit",
 	"AssocAppend", "AssocReplace", "AssocDelete", "AssocClear", "AssocCount", "AssocFind", "AssocAppendM2M", "AssocReplaceM2M", "Raw", "Exec", "SavePoint", "PreloadCond",
-	"NestedTxError", "NestedTxPanic", "TxError"}
+	"NestedTxError", "NestedTxPanic", "TxError", "SoftDeleteReturning", "SoftDeleteWhere", "UpsertCompany"}
+
+// doc is soft-deleted: its Delete is an UPDATE (with RETURNING: sent as a query and scanned back)
+type doc struct {
+	ID        uint
+	Name      string
+	DeletedAt gorm.DeletedAt
+}
+
+func (doc) TableName() string { return "c18_docs" }
+
+const seedDocs = "DELETE FROM c18_docs; INSERT INTO c18_docs(id,name) VALUES (1,'d1'),(2,'d2'),(3,'d2');"
 
 func genOp(r *core.Rand, idx int) op {
 	nk := len(txm.OpKinds)
@@ -84,6 +102,7 @@ func genOp(r *core.Rand, idx int) op {
 			}).Error
 		}
 	case "Rows":
+		o.multi = true
 		o.run = func(db *gorm.DB) error {
 			rows, err := db.Model(&txm.User{}).Where("age > ?", 1).Rows()
 			if err != nil {
@@ -201,12 +220,23 @@ func genOp(r *core.Rand, idx int) op {
 			})
 		}
 	case "TxError":
+		o.multi = true
 		o.run = func(db *gorm.DB) error {
 			db.Transaction(func(tx *gorm.DB) error {
 				tx.Create(&txm.Company{Name: "gone"})
 				return fmt.Errorf("block fails")
 			})
 			return db.First(&txm.Company{}).Error
+		}
+	case "SoftDeleteReturning":
+		id := uint(1 + r.Intn(3))
+		o.desc = fmt.Sprintf("SoftDeleteReturning db.Clauses(clause.Returning{}).Delete(&doc{ID:%d})", id)
+		o.run = func(db *gorm.DB) error { return db.Clauses(clause.Returning{}).Delete(&doc{ID: id}).Error }
+	case "SoftDeleteWhere":
+		o.run = func(db *gorm.DB) error { return db.Where("name = ?", "d2").Delete(&[]doc{}).Error }
+	case "UpsertCompany":
+		o.run = func(db *gorm.DB) error {
+			return db.Clauses(clause.OnConflict{UpdateAll: true}).Create(&[]txm.Company{{ID: 1, Name: "acme2"}, {Name: "fresh"}}).Error
 		}
 	default:
 		panic(kind)
@@ -237,29 +267,77 @@ func run(c *core.Ctx) {
 	nest := r.Intn(3)
 	viaSession := r.Bool()
 	opID := fmt.Sprintf("op-%d", c.Case)
-	parent := context.WithValue(context.Background(), ctxKey{}, opID)
-	// the caller's context may carry a deadline (far away) or be a cancellable child: still the same context
+	// the caller's context may carry a deadline (far away) or be a cancellable child: still the same context.
+	// Every phase gets a fresh one (phase 1 ends its context after the operation to see which driver calls notice)
 	ctxKind := (c.Case / 2) % 3
-	switch ctxKind {
-	case 1:
-		var cancelDl context.CancelFunc
-		parent, cancelDl = context.WithDeadline(parent, time.Now().Add(6*time.Hour))
-		defer cancelDl()
-	case 2:
-		var cancelP context.CancelFunc
-		parent, cancelP = context.WithCancel(parent)
-		defer cancelP()
+	newParent := func() (context.Context, context.CancelFunc) {
+		p := context.WithValue(context.Background(), ctxKey{}, opID)
+		switch ctxKind {
+		case 1:
+			return context.WithDeadline(p, time.Now().Add(6*time.Hour))
+		case 2:
+			return context.WithCancel(p)
+		}
+		return p, func() {}
 	}
 	sibling := r.Intn(6) // what else is derived from the context-bound handle before the operation uses it
-	desc := fmt.Sprintf("prepareStmt=%v context=%s nest=%d via=%s sibling=%d :: %s", prep, []string{"value", "value+deadline", "value+cancellable"}[ctxKind], nest, map[bool]string{true: "Session{Context}", false: "WithContext"}[viaSession], sibling, o.desc)
+	sibCtx := r.Intn(3)  // the sibling's context: alive, already cancelled, deadline passed
+	sibUse := r.Intn(2)  // what the sibling is used for
+	// the bound handle may be a chain value (a chain method was called on it: clone == 0) instead of a session
+	chain := r.Intn(7)
+	if chain > 4 || (o.multi && nest == 0) {
+		chain = 0
+	}
+	manualTx := r.Intn(3) == 0 && nest > 0 // outermost transaction by Begin / Commit / Rollback instead of a Transaction block
+	sess := r.Intn(7)                      // further session options on the bound handle
+	if sess > 3 || (prep && sess != 3) {
+		sess = 0
+	}
+	desc := fmt.Sprintf("prepareStmt=%v context=%s nest=%d%s via=%s session=%s chain=%s sibling=%d/%s :: %s", prep, []string{"value", "value+deadline", "value+cancellable"}[ctxKind], nest,
+		map[bool]string{true: "(outermost by Begin/Commit)", false: ""}[manualTx], map[bool]string{true: "Session{Context}", false: "WithContext"}[viaSession],
+		[]string{"-", "bound.Session{PrepareStmt}", "root.Session{PrepareStmt} then bound", "bound.Session{SkipDefaultTransaction}"}[sess],
+		[]string{"-", "bound.Set(k,v)", "bound.Scopes(identity)", "bound.Where(\"1 = 1\")", "bound.InstanceSet(k,v)"}[chain],
+		sibling, []string{"live", "cancelled", "expired"}[sibCtx], o.desc)
 	c.Logf("OP %s", desc)
 	other := context.WithValue(context.Background(), ctxKey{}, "sibling-of-"+opID)
+	switch sibCtx {
+	case 1:
+		var cancelO context.CancelFunc
+		other, cancelO = context.WithCancel(other)
+		cancelO()
+	case 2:
+		var cancelO context.CancelFunc
+		other, cancelO = context.WithDeadline(other, time.Unix(1, 0))
+		defer cancelO()
+	}
 	mk := func(ctx context.Context) *gorm.DB {
+		root := h.DB
+		if sess == 2 {
+			root = root.Session(&gorm.Session{PrepareStmt: true})
+		}
 		var base *gorm.DB
 		if viaSession {
-			base = h.DB.Session(&gorm.Session{Context: ctx})
+			base = root.Session(&gorm.Session{Context: ctx})
 		} else {
-			base = h.DB.WithContext(ctx)
+			base = root.WithContext(ctx)
+		}
+		switch sess {
+		case 1:
+			base = base.Session(&gorm.Session{PrepareStmt: true})
+		case 3:
+			base = base.Session(&gorm.Session{SkipDefaultTransaction: true})
+		}
+		// a chain value bound to the context: it is good for ONE chain (the operation), but sessions may be derived
+		// from it (Session / WithContext clone its statement) before that without touching it
+		switch chain {
+		case 1:
+			base = base.Set("verif:c18", opID)
+		case 2:
+			base = base.Scopes(func(d *gorm.DB) *gorm.DB { return d })
+		case 3:
+			base = base.Where("1 = 1")
+		case 4:
+			base = base.InstanceSet("verif:c18", opID)
 		}
 		// a handle bound to a context is reusable: sessions derived from it for other work carry their
 		// own context and leave the handle's alone
@@ -277,8 +355,13 @@ func run(c *core.Ctx) {
 			sib = base.Debug().WithContext(other)
 		}
 		if sib != nil {
-			var one int
-			sib.Raw("SELECT 1").Scan(&one)
+			if sibUse == 0 {
+				var one int
+				sib.Raw("SELECT 1").Scan(&one)
+			} else {
+				var n int64
+				sib.Table("companies").Count(&n)
+			}
 		}
 		return base
 	}
@@ -288,12 +371,25 @@ func run(c *core.Ctx) {
 			if n == 0 {
 				return o.run(db)
 			}
+			if manualTx && n == nest {
+				tx := db.Begin()
+				if tx.Error != nil {
+					return tx.Error
+				}
+				if err := f(tx, n-1); err != nil {
+					tx.Rollback()
+					return err
+				}
+				return tx.Commit().Error
+			}
 			return db.Transaction(func(tx *gorm.DB) error { return f(tx, n-1) })
 		}
 		return f(db, nest)
 	}
 	// (1) live context
-	bound := mk(parent)
+	parent1, cancelParent1 := newParent()
+	defer cancelParent1()
+	bound := mk(parent1)
 	txm.ResetHooks()
 	mark := h.Rec.Mark()
 	err := exec(bound)
@@ -304,10 +400,15 @@ func run(c *core.Ctx) {
 	if err != nil {
 		c.Inc("op_errors")
 		c.Logf("  op error: %v", err)
+		if errors.Is(err, context.Canceled) || errors.Is(err, context.DeadlineExceeded) {
+			problems = append(problems, fmt.Sprintf("the operation failed with %q although its context is alive (no context but the sibling's has ended)", err))
+		}
 	}
 	for _, e := range evs {
 		if e.CtxVal != opID {
 			problems = append(problems, fmt.Sprintf("driver call without the operation's context (value %v): %s", e.CtxVal, short(e.String())))
+		} else if e.CtxErr != nil {
+			problems = append(problems, fmt.Sprintf("driver call under a context that had ended (%v) although the operation's is alive: %s", e.CtxErr, short(e.String())))
 		}
 	}
 	for _, hk := range hooks {
@@ -318,6 +419,31 @@ func run(c *core.Ctx) {
 	c.Inc("operations")
 	c.Add("driver_events_checked", len(evs))
 	c.Add("hook_contexts_checked", len(hooks))
+	// the context OBJECT of every driver call is the caller's: same deadline, and when the caller's context ends
+	// (after the operation) the context of every call the operation made has ended too
+	var detached []string
+	pdl, pok := parent1.Deadline()
+	for _, e := range evs {
+		if e.Ctx == nil {
+			detached = append(detached, "driver call without any context: "+short(e.String()))
+			continue
+		}
+		if dl, ok := e.Ctx.Deadline(); ok != pok || !dl.Equal(pdl) {
+			detached = append(detached, fmt.Sprintf("driver call under a context with another deadline (has one: %v) than the caller's (has one: %v): %s", ok, pok, short(e.String())))
+		}
+	}
+	cancelParent1()
+	if ctxKind != 0 {
+		for _, e := range evs {
+			if e.Ctx != nil && e.Ctx.Err() == nil {
+				detached = append(detached, fmt.Sprintf("driver call under a context that does not end when the caller's is cancelled (Done()==nil: %v, Err()==nil): %s", e.Ctx.Done() == nil, short(e.String())))
+			}
+		}
+		c.Add("driver_contexts_cancelled_after", len(evs))
+	}
+	if len(detached) > 0 {
+		c.Violation("ctx-detached/"+strings.Fields(o.desc)[0], map[string]interface{}{"op": desc, "problems": detached})
+	}
 	if len(problems) > 0 {
 		c.Violation("ctx-lost/"+strings.Fields(o.desc)[0], map[string]interface{}{"op": desc, "problems": problems})
 	} else if len(evs) >= 2 {
@@ -325,7 +451,10 @@ func run(c *core.Ctx) {
 		for _, e := range evs {
 			kinds[e.Kind] = true
 		}
-		c.Shape(strings.Fields(o.desc)[0], prep, nest, viaSession, len(kinds), len(evs) > 6)
+		c.Shape(strings.Fields(o.desc)[0], prep, nest, viaSession, len(kinds), len(evs) > 6, chain > 0, manualTx, sess)
+		if chain > 0 && sibling > 0 {
+			c.Inc("chain_value_with_sibling_runs")
+		}
 		if c.WantSample() && len(evs) > 4 {
 			ss := []string{}
 			for _, e := range evs {
@@ -334,6 +463,8 @@ func run(c *core.Ctx) {
 			c.Sample(map[string]interface{}{"op": desc, "events": ss})
 		}
 	}
+	parent, cancelParent := newParent()
+	defer cancelParent()
 	// (2) already-cancelled context: no statement may run
 	if err := reseed(h); err != nil {
 		c.Inconclusive("could not restore the tables: " + err.Error())
@@ -482,7 +613,7 @@ func reseed(h *vdb.Handle) error {
 	}
 	var err error
 	for i := 0; i < 400; i++ {
-		if _, err = h.SQL.Exec(txm.SeedSQL); err == nil || !strings.Contains(err.Error(), "locked") {
+		if _, err = h.SQL.Exec(txm.SeedSQL + seedDocs); err == nil || !strings.Contains(err.Error(), "locked") {
 			return err
 		}
 		time.Sleep(5 * time.Millisecond)
@@ -500,11 +631,14 @@ func short(s string) string {
 var Engine = &core.Engine{
 	ID:    "C18",
 	Level: "exploration",
-	Rule: "operations = the 16 write kinds of C05 over seeded association graphs (hooks write through tx) + 27 read / association-mode / raw / savepoint / failing-nested-block kinds (nested and conditional Preload, clause.Associations, Joins, FindInBatches with a statement in the callback, Rows+ScanRows, Scan, Pluck, Count, First/Last, FirstOrCreate/Init, Association Append/Replace/Delete/Clear/Count/Find on has-many and many-to-many, Raw, Exec, SavePoint/RollbackTo/nested Transaction) x {PrepareStmt off, on} x nesting in 0..2 Transaction blocks x {WithContext, Session{Context}} x {nothing, one of five sibling sessions with another context derived (and used) from the bound handle first}; " +
-		"each run twice: live context (every begin/prepare/exec/query/prepared-exec event and every hook must show the operation id) and cancelled context (no driver statement, error returned); distinct = (operation, PrepareStmt, nesting, entry, event kinds, size class); non-trivial = at least 2 context-carrying driver events",
+	Rule: "operations = the 19 write kinds of C05 over seeded association graphs (hooks write through tx; Delete/Updates with RETURNING among them) + 30 read / association-mode / raw / savepoint / failing-nested-block kinds (nested and conditional Preload, clause.Associations, Joins, FindInBatches with a statement in the callback, Rows+ScanRows, Scan, Pluck, Count, First/Last, FirstOrCreate/Init, Association Append/Replace/Delete/Clear/Count/Find on has-many and many-to-many, Raw, Exec, SavePoint/RollbackTo/nested Transaction, soft delete with and without RETURNING, OnConflict upsert) x {PrepareStmt off, on by config, on by Session{PrepareStmt} before or after binding the context, Session{SkipDefaultTransaction}} x nesting in 0..2 Transaction blocks (outermost one in three by Begin/Commit/Rollback) x {WithContext, Session{Context}} x caller's context {value, value+far deadline, value+cancellable} x bound handle {session, chain value: Set / Scopes / Where / InstanceSet called on it, used for the one chain of the operation} x {nothing, one of five sibling sessions with another context (alive, cancelled, expired) derived from the bound handle / chain value and used (Raw or Count) first}; " +
+		"each run: (1) live context: every begin/prepare/exec/query/prepared-exec event and every hook shows the operation id, no call's context had ended, no context error comes back; the context object of every call has the caller's deadline, and once the caller's context is cancelled after the operation the context of every call it made reports an error; (2) already cancelled / expired context: no driver statement, error returned; (2b, one in three) that handle bound again to context.Background(): nothing of the old context reaches a call; (3) context cancelled during the k-th call (3 positions, thorough: all): no later call; distinct = (operation, PrepareStmt, nesting, entry, event kinds, size class, chain value, manual transaction, session option); non-trivial = at least 2 context-carrying driver events",
 	Assumptions: []string{
 		"COMMIT/ROLLBACK carry no context in database/sql's driver interface and are not checked",
 		"SQLite behind the recording driver; prepared-statement preparation is observed as a prepare event with its context",
+		"a chain value (clone==0 result of a chain method) is used for exactly one chain; operations that start two chains from their handle (Rows+ScanRows, TxError) get a chain value only inside a Transaction block (whose tx is a session)",
+		"'receives that context' is checked by what the driver can observe of it: the identifying value, the deadline (equal to the caller's) and, for cancellable callers, that cancelling the caller's context ends it; for a plain value context (never ends) only value and absence of a deadline are demanded; object identity is not demanded",
+		"db.Connection blocks and DryRun sessions are not part of the quantifier (C14 / C19) and are not generated",
 	},
 	Cases: func(tier string) int {
 		if tier == "thorough" {
